@@ -5,6 +5,8 @@
 set -u
 cd "$(dirname "$0")"
 export GOFLAGS=-mod=mod GOPROXY=off GOSUMDB=off GOTOOLCHAIN=local GOWORK=off
+# the engine reads harnesses, findings and writes evidence / replays under the directory of this script
+export VERIF_DIR="${VERIF_DIR:-$(pwd)}"
 PROP="$1"
 TIER="${2:-${VERIF_TIER:-quick}}"
 if [ ! -x bin/gclverify ] || [ -n "$(find engine -name '*.go' -newer bin/gclverify 2>/dev/null | head -1)" ]; then
